@@ -592,7 +592,7 @@ def run(ctx):
         else:
             ctx.fail(f'parse_header({h!r}) raised {tr.get("exc")}', {'stream': 'parse_header', 'clause': 'raises'},
                      {'stream': 'parse_header', 'case': {'header': h}, 'impl_trace': tr})
-    n_srv = n_cli = 0
+    n_srv = n_cli = n_async = 0
     for i, ((h, en), tr) in enumerate(zip(sc_cases, impl['server_choice'])):
         chosen = None if tr['chosen'] is None else bytes.fromhex(tr['chosen']).decode('latin-1')
         n_srv += chosen is not None
@@ -615,6 +615,17 @@ def run(ctx):
         if bad:
             ctx.fail(f'client: {bad[1]}', {'stream': 'client_choice', 'clause': bad[0]},
                      {'stream': 'client_choice', 'case': c, 'impl_trace': tr, 'oracle': {'verdict': 'fail', 'clause': bad[0]}})
+        ta = tr.get('async') or {}
+        if 'skipped' not in ta and ta:
+            n_async += 1
+            a_chosen = None if ta['chosen'] is None else bytes.fromhex(ta['chosen']).decode('latin-1')
+            nlits.append((nlits[-1][0], f'(NCoding {OB(lat(a_chosen))})', 'client_choice', i))
+            bad = choice_oracle(c['header'], c['supported'], a_chosen)
+            if not ta['consistent'] or ta['exc']:
+                bad = ('inconsistent', f'async client: Content-Encoding / compression call / framing disagree or raised: {ta}')
+            if bad:
+                ctx.fail(f'async client: {bad[1]}', {'stream': 'client_choice', 'clause': bad[0], 'client': 'async'},
+                         {'stream': 'client_choice', 'case': c, 'impl_trace': tr, 'oracle': {'verdict': 'fail', 'clause': bad[0]}})
     mism, err = ctx.coq_mism('negotiation', HEADER, 'nres_eqb', 'run_neg', [(a, b) for a, b, _, _ in nlits], shard=500,
                              deps=['Http/Negotiation.vo'])
     if err:
@@ -635,7 +646,7 @@ def run(ctx):
               with_zero_quality=sum(1 for h in ph_cases if h and re.search(r'q\s*=\s*0(\.0*)?\s*(,|$)', h)))
     ctx.sample({'stream': 'parse_header', 'header': ph_cases[1], 'impl': impl['parse_header'][1]})
     ctx.count('server_choice', len(sc_cases), [(h, tuple(en)) for h, en in sc_cases], coding_chosen=n_srv)
-    ctx.count('client_choice', len(cc_cases), [(tuple(c['request_encodings']), tuple(c['supported'])) for c in cc_cases], coding_chosen=n_cli)
+    ctx.count('client_choice', len(cc_cases), [(tuple(c['request_encodings']), tuple(c['supported'])) for c in cc_cases], coding_chosen=n_cli, async_client_cases=n_async)
 
     # ------------------------------------------------------------ oracle streams e2e / raw / codec
     hist = {'req_coded': 0, 'req_chunked': 0, 'resp_coded': 0, 'resp_chunked': 0}
@@ -713,8 +724,9 @@ def run(ctx):
         not_modelled=['float() strings outside  [sign] digits [. digits]  with at most 15 digits (exponent, "_", inf, nan): model declines, counted',
                       'bit flips inside lz4 frames (no content checksum in the frames the library writes): not detectable by the receiver',
                       'chunk extensions are ignored, trailers are not supported by the reader (a non-empty trailer is rejected as missing CRLF)',
-                      'soapclient_async: coding choice is the same loop (not exercised: needs aiohttp session); its subscription manager passes '
-                      'the raw header string as request_encodings, so it never compresses'])
+                      'soapclient_async: the coding choice of async_post_message_to is exercised with a recording session object (no aiohttp '
+                      'traffic); its subscription manager (subscriptionmgr_async) passes the raw header string as request_encodings, so '
+                      'in that configuration nothing is ever compressed'])
 
 
 def response_oracle(c, tr):
